@@ -56,31 +56,31 @@ theorem postfinance_amount {g l : String} {q : Rat} (h : Postfinance.amount g l 
     · cases h
 
 theorem postfinance_bookings (acct : Account) (hacct : acct ≠ tbd) (cur : Commodity) : ∀ (recs : List Rec)
-    (dbg : String) (ds : List Directive) (rest : List Rec),
-    Postfinance.bookings acct cur recs = .ok (dbg, ds, rest) → All2 (Matches acct) (postfinanceRows cur recs) ds := by
+    (ds : List Directive) (rest : List Rec),
+    Postfinance.bookings acct cur recs = .ok (ds, rest) → All2 (Matches acct) (postfinanceRows cur recs) ds := by
   intro recs
   induction recs with
-  | nil => intro dbg ds rest h; simp [Postfinance.bookings] at h
+  | nil => intro ds rest h; simp [Postfinance.bookings] at h
   | cons r rs ih =>
-    intro dbg ds rest h
+    intro ds rest h
     unfold Postfinance.bookings at h
     unfold postfinanceRows
     split at h
     · simp at h
-      obtain ⟨_, h2, _⟩ := h
+      obtain ⟨h2, _⟩ := h
       subst h2
       simp [*]; exact All2.nil
     · rename_i hlen
       simp only [hlen, Bool.false_eq_true, if_false]
       obtain ⟨d, hd, h⟩ := Res.bind_eq_ok h
       obtain ⟨q, hq, h⟩ := Res.bind_eq_ok h
-      obtain ⟨⟨dbg', ds', rest'⟩, hrec, h⟩ := Res.bind_eq_ok h
+      obtain ⟨⟨ds', rest'⟩, hrec, h⟩ := Res.bind_eq_ok h
       simp at h
-      obtain ⟨_, h2, _⟩ := h
+      obtain ⟨h2, _⟩ := h
       subst h2
       have hd' := ofOption_eq_ok hd
       have hq' := postfinance_amount hq
-      refine All2.cons ?_ (ih _ _ _ hrec)
+      refine All2.cons ?_ (ih _ _ hrec)
       unfold dateOf
       rw [hd', ← hq']
       simp only [Option.getD_some]
@@ -89,17 +89,16 @@ theorem postfinance_bookings (acct : Account) (hacct : acct ≠ tbd) (cur : Comm
       simp [pbSum, pbEffect, expected, hacct.symm]
       grind
 
-theorem postfinance_faithful (acct : Account) (hacct : acct ≠ tbd) (recs : List Rec) (dbg : String) (ds : List Directive)
-    (h : Postfinance.run acct recs = .ok (dbg, ds)) : Faithful acct (postfinance recs) ds := by
+theorem postfinance_faithful (acct : Account) (hacct : acct ≠ tbd) (recs : List Rec) (ds : List Directive)
+    (h : Postfinance.run acct recs = .ok ds) : Faithful acct (postfinance recs) ds := by
   unfold Postfinance.run at h
   obtain ⟨⟨o, rest⟩, hkv, h⟩ := Res.bind_eq_ok h
   obtain ⟨c, hc, h⟩ := Res.bind_eq_ok h
-  obtain ⟨⟨dbg', ds', rest'⟩, hb, h⟩ := Res.bind_eq_ok h
+  obtain ⟨⟨ds', rest'⟩, hb, h⟩ := Res.bind_eq_ok h
   simp only at h hc hb
   split at h
   · simp at h
-    obtain ⟨_, h2⟩ := h
-    subst h2
+    subst h
     unfold Faithful postfinance
     rw [postfinance_keyValues _ _ _ _ hkv]
     simp only
@@ -108,7 +107,7 @@ theorem postfinance_faithful (acct : Account) (hacct : acct ≠ tbd) (recs : Lis
       | none => simp [Postfinance.currencyOf] at hc; simp [hc]
       | some s => simp [Postfinance.currencyOf] at hc; simp [(getCommodity_eq_ok hc).1]
     rw [← hcur]
-    exact postfinance_bookings acct hacct c _ _ _ _ hb
+    exact postfinance_bookings acct hacct c _ _ _ hb
   · cases h
 
 /-! ## revolut2 -/
